@@ -33,6 +33,12 @@ pub struct DocPlan {
     /// bit4 odd whitespace/indentation, bit5 multi-line arrays, bit6 exotic scalar spellings,
     /// bit7 children before parent headers / implicit parents, bit8 quoted keys although bare would do
     pub features: u32,
+    /// a run of this many empty lines (line numbers >= 256 / 512 / 1100 with almost no bytes in between) ...
+    #[serde(default)]
+    pub blank_run: u32,
+    /// ... written before this key/value line of the root table
+    #[serde(default)]
+    pub blank_at: u32,
 }
 
 pub const F_COMMENTS: u32 = 1;
@@ -208,7 +214,8 @@ pub fn gen_plan(rng: &mut Rng) -> DocPlan {
     if root.is_empty() && g.rng.chance(9, 10) {
         root.push(("a".into(), Node::Scalar(g.scalar())));
     }
-    DocPlan { root, trivia_seed, features }
+    let (blank_run, blank_at) = if g.rng.chance(1, 40) { (*g.rng.pick(&[300u32, 520, 1100]), g.rng.below(3) as u32) } else { (0, 0) };
+    DocPlan { root, trivia_seed, features, blank_run, blank_at }
 }
 
 // ------------------------------------------------------------------------------------------------
@@ -224,6 +231,8 @@ struct Render {
     header_ends: Vec<usize>,
     /// index into `headers` of the header whose key/value lines are being written (None: root table)
     cur_hdr: Option<usize>,
+    /// (length, root line index) of the run of empty lines
+    blank: (u32, u32),
 }
 
 fn is_bare(k: &str) -> bool {
@@ -659,7 +668,15 @@ impl Render {
         if self.on(F_REORDER) {
             self.t.shuffle(&mut lines);
         }
-        for (prefix, k, v, mut p) in lines {
+        let at_root = hdr.is_empty() && path.is_empty();
+        let n_lines = lines.len();
+        for (li, (prefix, k, v, mut p)) in lines.into_iter().enumerate() {
+            if at_root && self.blank.0 > 0 && li == (self.blank.1 as usize).min(n_lines - 1) {
+                for _ in 0..self.blank.0 {
+                    self.out.push('\n');
+                }
+                self.blank.0 = 0;
+            }
             self.indent();
             self.key_path(&prefix, &k, &p);
             self.ws();
@@ -765,7 +782,7 @@ fn flatten_inline(kvs: &[(String, Node)], prefix: &mut Vec<String>, path: &mut V
 }
 
 pub fn render(plan: &DocPlan) -> DocSpec {
-    let mut r = Render { out: String::new(), t: Rng::new(plan.trivia_seed), f: plan.features, spans: Vec::new(), headers: Vec::new(), header_ends: Vec::new(), cur_hdr: None };
+    let mut r = Render { out: String::new(), t: Rng::new(plan.trivia_seed), f: plan.features, spans: Vec::new(), headers: Vec::new(), header_ends: Vec::new(), cur_hdr: None, blank: (plan.blank_run, plan.blank_at) };
     if r.on(F_BOM) {
         r.out.push('\u{feff}');
     }
